@@ -284,15 +284,18 @@ func restoreFile(name string, backupFi fs.FileInfo, base, backup FS) (err error)
 	}()
 	f, err := backup.Open(name)
 	if err != nil {
-		// best effort, if backup was tempered with, we cannot restore the file.
-		return nil
+		if isNotFoundError(err) {
+			// best effort, if backup was tempered with, we cannot restore the file.
+			return nil
+		}
+		// the file was not restored, e.g. due to network problems
+		return err
 	}
 	defer f.Close()
 
 	fi, err := f.Stat()
 	if err != nil {
-		// best effort, see above
-		return nil
+		return err
 	}
 
 	if !fi.Mode().IsRegular() {
@@ -300,8 +303,8 @@ func restoreFile(name string, backupFi fs.FileInfo, base, backup FS) (err error)
 		err = base.RemoveAll(name)
 		if err != nil {
 			// we failed to remove the directory
-			// supposedly we cannot restore the file, as the directory still exists
-			return nil
+			// we cannot restore the file, as the directory still exists
+			return err
 		}
 	}
 
@@ -329,20 +332,26 @@ func restoreSymlink(name string, backupFi fs.FileInfo, base, backup FS) (err err
 	}()
 
 	_, exists, err := lexists(backup, name)
-	if err != nil || !exists {
+	if err != nil {
+		// the symlink was not restored, e.g. due to network problems
+		return err
+	}
+	if !exists {
 		// best effort, if backup broken, we cannot restore
 		return nil
 	}
 
 	_, newFileExists, err := lexists(base, name)
-	if err == nil && newFileExists {
+	if err != nil {
+		return err
+	}
+	if newFileExists {
 		// remove dir/symlink/etc and create a new symlink there
 		err = base.RemoveAll(name)
 		if err != nil {
 			// in case we fail to remove the new file,
 			// we cannot restore the symlink
-			// best effort, fail silently
-			return nil
+			return err
 		}
 	}
 
